@@ -1,4 +1,516 @@
 package main
 
-func ordindObligations(cc *checkCtx, w *World) *extraResult { return nil }
-func safetySweep(cc *checkCtx, w *World) *extraResult      { return nil }
+// C07 — determinism. Sequential Go is deterministic except at an enumerable set of sources
+// (range over a map, select, go statements, calls into math/rand / time.Now / ...). They are
+// enumerated from the typed AST of every loaded package on every run; each must be covered by a
+// rule in /verif/contracts/ordind.json, and the rule's obligations are generated from the real code:
+//
+//   commute       any two iterations of the loop body commute (symbolic double execution:
+//                 body(k1);body(k2) and body(k2);body(k1) from the same arbitrary state end in equal
+//                 states) — then the loop's effect does not depend on the iteration order
+//   sorted-after  the body only appends to one slice, which the next statement sorts with a total
+//                 order (sort.Strings, or sort.Slice whose comparator is total on the appended elements)
+//   argued        covered by an argument written in DESIGN.md and by the always-run bounded
+//                 determinism harness only: NOT counted as a discharged obligation
+//
+// A source without an entry is a failed obligation (ordind:uncovered).
+
+import (
+	"encoding/json"
+	"fmt"
+	"go/ast"
+	"go/token"
+	"go/types"
+	"os"
+	"path/filepath"
+	"strings"
+)
+
+type ordindEntry struct {
+	Func string `json:"func"` // short function key, e.g. analysis.NewLinker
+	Loop string `json:"loop"` // descriptor: <ranged expr>.<k>  /  go.<k>
+	Rule string `json:"rule"`
+	Note string `json:"note"`
+}
+
+func loadOrdindTable() []ordindEntry {
+	var t []ordindEntry
+	data, err := os.ReadFile(filepath.Join(verifDir, "contracts", "ordind.json"))
+	if err == nil {
+		if err := json.Unmarshal(data, &t); err != nil {
+			fmt.Fprintln(os.Stderr, "ordind.json:", err)
+		}
+	}
+	return t
+}
+
+func presetObligation(name, fn, pos, text, result string) *Obligation {
+	return &Obligation{Name: name, Kind: "ordind", Func: fn, Pos: pos, Text: text, Result: result, Preset: true, Goal: "false"}
+}
+
+func ordindObligations(cc *checkCtx, w *World) *extraResult {
+	ex := &extraResult{Coverage: map[string]interface{}{}}
+	table := loadOrdindTable()
+	srcs := enumerateNondeterminism(w)
+	// descriptors
+	count := map[string]int{}
+	var argued, proved []string
+	for _, s := range srcs {
+		desc := ""
+		switch s.Kind {
+		case "maprange":
+			desc = strings.ReplaceAll(s.Text, " ", "")
+		default:
+			desc = s.Kind
+			if s.Kind == "call" {
+				desc = "call:" + s.Text
+			}
+		}
+		key := s.Func + "|" + desc
+		count[key]++
+		desc = fmt.Sprintf("%s.%d", desc, count[key])
+		short := shortName(s.Func)
+		var ent *ordindEntry
+		for i := range table {
+			if table[i].Func == short && table[i].Loop == desc {
+				ent = &table[i]
+			}
+		}
+		oname := s.Func + "#ordind:" + desc
+		if ent == nil {
+			ex.Obls = append(ex.Obls, presetObligation(oname+":uncovered", s.Func, s.Pos,
+				fmt.Sprintf("source of nondeterminism (%s over %s) not covered by any order-independence rule", s.Kind, s.Text), "uncovered"))
+			continue
+		}
+		switch ent.Rule {
+		case "commute":
+			obls := commuteObligations(w, s, oname)
+			ex.Obls = append(ex.Obls, obls...)
+			proved = append(proved, short+" "+desc+" [commute]")
+		case "sorted-after":
+			obls := sortedAfterObligations(w, s, oname)
+			ex.Obls = append(ex.Obls, obls...)
+			proved = append(proved, short+" "+desc+" [sorted-after]")
+		case "argued":
+			argued = append(argued, short+" "+desc+": "+ent.Note)
+		default:
+			ex.Obls = append(ex.Obls, presetObligation(oname+":rule", s.Func, s.Pos, "unknown rule "+ent.Rule, "not-generated"))
+		}
+		ex.Funcs = append(ex.Funcs, short+"#"+desc)
+	}
+	ex.Coverage["nondeterminism_sources"] = len(srcs)
+	ex.Coverage["order_independence_proved"] = proved
+	ex.Coverage["argued_not_proved"] = argued
+	ex.Assumptions = append(ex.Assumptions,
+		"sequential Go is deterministic apart from the enumerated sources (range over map, select, go, math/rand, time.Now, ...); sort.Slice/sort.Sort are deterministic functions of their input",
+		"determinism of packages.Load / go list and of the external formatters is assumed",
+		fmt.Sprintf("%d of %d sources are covered only by an argument (DESIGN §4 C07) and the bounded run-twice harness, not by a discharged obligation", len(argued), len(srcs)))
+	return ex
+}
+
+// newScratchVC prepares a FuncVC for checking a fragment of fi (no contracts involved).
+func newScratchVC(w *World, fi *FuncInfo) (*FuncVC, *State) {
+	th := newTheory(w.Externs)
+	fv := &FuncVC{w: w, fi: fi, th: th, info: fi.Pkg.TypesInfo, counters: map[string]int{}, heapSort: map[string]Sort{},
+		usedExterns: map[string]bool{}, unknownCalls: map[string]bool{}, mode: "full", calledContracts: map[string]bool{},
+		freshRefs: map[string]bool{}, loopDescCount: map[string]int{}}
+	fv.heapDecl("alloc", arraySort(SRef, SBoolS))
+	st := &State{vars: map[types.Object]Val{}, heaps: map[string]string{}, guard: "true", ghosts: map[string]Val{}}
+	fv.addFactRaw("(not (select " + fv.getHeap(st, "alloc") + " nil))")
+	fv.installGlobalAxioms(st)
+	fv.entry = st.clone()
+	return fv, st
+}
+
+// bindFreeVars gives every variable used (but not declared) inside n an arbitrary value.
+func (fv *FuncVC) bindFreeVars(n ast.Node, st *State) {
+	declared := map[types.Object]bool{}
+	ast.Inspect(n, func(m ast.Node) bool {
+		if id, ok := m.(*ast.Ident); ok {
+			if o := fv.info.Defs[id]; o != nil {
+				declared[o] = true
+			}
+		}
+		return true
+	})
+	ast.Inspect(n, func(m ast.Node) bool {
+		id, ok := m.(*ast.Ident)
+		if !ok {
+			return true
+		}
+		o, ok := fv.info.Uses[id].(*types.Var)
+		if !ok || declared[o] || o.IsField() {
+			return true
+		}
+		if o.Parent() != nil && o.Pkg() != nil && o.Parent() == o.Pkg().Scope() {
+			return true // package-level variable
+		}
+		if _, done := st.vars[o]; !done {
+			st.vars[o] = fv.havocVal(st, o.Name(), o.Type())
+		}
+		return true
+	})
+	// the function's preconditions that only speak about variables bound here
+	if fv.fi.Contract != nil {
+		for _, c := range fv.fi.Contract.Requires {
+			func() {
+				defer func() { recover() }()
+				nf := len(fv.facts)
+				g := fv.specBool(c.Expr, fv.specScope(st, fv.entry, false))
+				fv.facts = fv.facts[:nf]
+				fv.addFact(st, g)
+			}()
+		}
+	}
+}
+
+func containsReturnOrBreakOut(body *ast.BlockStmt) string {
+	bad := ""
+	var walk func(n ast.Node, loopDepth int)
+	walk = func(n ast.Node, loopDepth int) {
+		ast.Inspect(n, func(m ast.Node) bool {
+			if m == nil || bad != "" {
+				return false
+			}
+			switch x := m.(type) {
+			case *ast.FuncLit:
+				return false
+			case *ast.ReturnStmt:
+				bad = "return inside the loop body"
+				return false
+			case *ast.BranchStmt:
+				if x.Tok == token.BREAK && loopDepth == 0 {
+					bad = "break out of the loop"
+				}
+				if x.Tok == token.GOTO {
+					bad = "goto"
+				}
+			case *ast.ForStmt:
+				if m != n {
+					walk(x.Body, loopDepth+1)
+					return false
+				}
+			case *ast.RangeStmt:
+				if m != n {
+					walk(x.Body, loopDepth+1)
+					return false
+				}
+			case *ast.SwitchStmt, *ast.TypeSwitchStmt, *ast.SelectStmt:
+				if m != n {
+					var b *ast.BlockStmt
+					switch y := x.(type) {
+					case *ast.SwitchStmt:
+						b = y.Body
+					case *ast.TypeSwitchStmt:
+						b = y.Body
+					case *ast.SelectStmt:
+						b = y.Body
+					}
+					walk(b, loopDepth+1)
+					return false
+				}
+			}
+			return true
+		})
+	}
+	walk(body, 0)
+	return bad
+}
+
+// iterate runs one iteration of the map-range loop rs for key k in state s.
+func (fv *FuncVC) iterate(rs *ast.RangeStmt, m Val, mt *types.Map, k string, s *State) *State {
+	ks, vs := fv.th.sortOf(mt.Key()), fv.th.sortOf(mt.Elem())
+	_, vh, _ := fv.declMapHeaps(ks, vs)
+	frame := &jumpFrame{isLoop: true}
+	fv.frames = []*jumpFrame{frame}
+	fv.loopDescCount = map[string]int{} // every run of the body sees its inner loops as the first ones
+	fv.loopOrd = 0
+	define := rs.Tok == token.DEFINE
+	fv.bindRangeVar(rs.Key, define, Val{k, ks, mt.Key()}, s)
+	if rs.Value != nil {
+		vv := Val{sx("select", sx("select", fv.getHeap(s, vh), m.T), k), vs, mt.Elem()}
+		fv.valueFacts(s, vv)
+		fv.bindRangeVar(rs.Value, define, vv, s)
+	}
+	s = fv.execBlock(rs.Body.List, s)
+	out := fv.merge(append([]*State{s}, frame.continues...))
+	fv.frames = nil
+	return out
+}
+
+func commuteObligations(w *World, src ndSource, oname string) []*Obligation {
+	rs := src.Node.(*ast.RangeStmt)
+	if why := containsReturnOrBreakOut(rs.Body); why != "" {
+		return []*Obligation{presetObligation(oname+":commute", src.Func, src.Pos, "rule commute not applicable: "+why, "not-applicable")}
+	}
+	fv, st := newScratchVC(w, src.FI)
+	var result []*Obligation
+	func() {
+		defer func() {
+			if r := recover(); r != nil {
+				result = []*Obligation{presetObligation(oname+":commute", src.Func, src.Pos, fmt.Sprintf("rule commute: generation failed: %v", r), "not-generated")}
+			}
+		}()
+		fv.bindFreeVars(rs, st)
+		mt := types.Unalias(fv.typeOf(rs.X)).Underlying().(*types.Map)
+		m := fv.eval(rs.X, st)
+		fv.unknownCalls = map[string]bool{} // the ranged expression is evaluated once, before the loop
+		fv.unsupported = nil
+		ks, vs := fv.th.sortOf(mt.Key()), fv.th.sortOf(mt.Elem())
+		d, _, _ := fv.declMapHeaps(ks, vs)
+		k1 := fv.havocVal(st, "k1", mt.Key())
+		k2 := fv.havocVal(st, "k2", mt.Key())
+		dom := sx("select", fv.getHeap(st, d), m.T)
+		fv.addFact(st, mkAnd(mkNot(mkEq(m.T, "nil")), sx("select", dom, k1.T), sx("select", dom, k2.T), mkNot(fv.eqVals(k1, k2))))
+		// materialise every heap that the body may touch lazily: run both orders from the same start
+		nFresh := len(fv.freshRefs)
+		outer := map[types.Object]Val{}
+		for o, v := range st.vars {
+			outer[o] = v
+		}
+		sA := fv.iterate(rs, m, mt, k2.T, fv.iterate(rs, m, mt, k1.T, st.clone()))
+		sB := fv.iterate(rs, m, mt, k1.T, fv.iterate(rs, m, mt, k2.T, st.clone()))
+		fv.obls = nil // safety obligations of the body belong to other checks
+		fv.curPos = rs.Pos()
+		var why []string
+		if len(fv.freshRefs) > nFresh {
+			why = append(why, "the body allocates (object identities differ between the two orders)")
+		}
+		if sA.epoch != st.epoch || sB.epoch != st.epoch {
+			why = append(why, "the body calls code that may change any heap")
+		}
+		for k := range fv.unknownCalls {
+			why = append(why, k)
+		}
+		why = append(why, fv.unsupported...)
+		if len(why) > 0 {
+			result = []*Obligation{presetObligation(oname+":commute", src.Func, src.Pos, "rule commute not applicable: "+strings.Join(why, "; "), "not-applicable")}
+			return
+		}
+		fin := st.clone()
+		fin.guard = mkAnd(sA.guard, sB.guard)
+		_ = vs
+		// both orders reach the end under the same conditions
+		if o := fv.oblig(st, "ordind", strings.TrimPrefix(oname, src.Func+"#")+":commute:reach", "both orders complete under the same conditions", mkEq(sA.guard, sB.guard)); o != nil {
+			result = append(result, o)
+		}
+		n := 0
+		for o := range outer {
+			a, okA := sA.vars[o]
+			b, okB := sB.vars[o]
+			if !okA || !okB || a.T == b.T {
+				continue
+			}
+			n++
+			if ob := fv.oblig(fin, "ordind", fmt.Sprintf("%s:commute:var:%s", strings.TrimPrefix(oname, src.Func+"#"), o.Name()), "variable "+o.Name()+" has the same value after both orders", fv.eqVals(a, b)); ob != nil {
+				result = append(result, ob)
+			}
+		}
+		for _, h := range sortedKeys(fv.heapSortAsAny()) {
+			a, b := fv.getHeap(sA, h), fv.getHeap(sB, h)
+			if a == b {
+				continue
+			}
+			if ob := fv.oblig(fin, "ordind", fmt.Sprintf("%s:commute:heap:%s", strings.TrimPrefix(oname, src.Func+"#"), shortHeap(h)), "heap "+h+" is the same after both orders", mkEq(a, b)); ob != nil {
+				result = append(result, ob)
+			}
+		}
+		if len(result) == 1 {
+			// nothing differs syntactically: still one (trivial) obligation so that the loop is counted
+		}
+		for _, ob := range result {
+			ob.facts = fv.facts[:ob.NFacts]
+		}
+	}()
+	return result
+}
+
+func (fv *FuncVC) heapSortAsAny() map[string]Sort { return fv.heapSort }
+
+// sortedAfterObligations: `for k, v := range m { ...; X = append(X, e) }; sort.Strings(X)` (or sort.Slice).
+func sortedAfterObligations(w *World, src ndSource, oname string) []*Obligation {
+	rs := src.Node.(*ast.RangeStmt)
+	fail := func(why string) []*Obligation {
+		return []*Obligation{presetObligation(oname+":sorted-after", src.Func, src.Pos, "rule sorted-after not applicable: "+why, "not-applicable")}
+	}
+	if why := containsReturnOrBreakOut(rs.Body); why != "" {
+		return fail(why)
+	}
+	// the statement following the loop
+	var next ast.Stmt
+	ast.Inspect(src.FI.Decl.Body, func(n ast.Node) bool {
+		var list []ast.Stmt
+		switch b := n.(type) {
+		case *ast.BlockStmt:
+			list = b.List
+		case *ast.CaseClause:
+			list = b.Body
+		}
+		for i, s := range list {
+			if s == ast.Stmt(rs) && i+1 < len(list) {
+				next = list[i+1]
+			}
+		}
+		return true
+	})
+	es, ok := next.(*ast.ExprStmt)
+	if !ok {
+		return fail("the loop is not followed by a sort call")
+	}
+	call, ok := es.X.(*ast.CallExpr)
+	if !ok || len(call.Args) == 0 {
+		return fail("the loop is not followed by a sort call")
+	}
+	info := src.FI.Pkg.TypesInfo
+	var callee *types.Func
+	if se, ok := call.Fun.(*ast.SelectorExpr); ok {
+		callee, _ = info.ObjectOf(se.Sel).(*types.Func)
+	}
+	if callee == nil {
+		return fail("the loop is not followed by a sort call")
+	}
+	full := callee.FullName()
+	xid, ok := ast.Unparen(call.Args[0]).(*ast.Ident)
+	if !ok {
+		return fail("sorted value is not a local variable")
+	}
+	xobj := info.ObjectOf(xid)
+	switch full {
+	case "sort.Strings", "slices.Sort", "sort.Slice", "sort.SliceStable":
+	default:
+		return fail("the loop is followed by " + full + ", not by a sort")
+	}
+	fv, st := newScratchVC(w, src.FI)
+	var result []*Obligation
+	func() {
+		defer func() {
+			if r := recover(); r != nil {
+				result = fail(fmt.Sprintf("generation failed: %v", r))
+			}
+		}()
+		fv.bindFreeVars(rs, st)
+		if len(call.Args) > 1 {
+			fv.bindFreeVars(call.Args[1], st)
+		}
+		if _, ok := st.vars[xobj]; !ok {
+			result = fail("the sorted slice is not the one built by the loop")
+			return
+		}
+		mt := types.Unalias(fv.typeOf(rs.X)).Underlying().(*types.Map)
+		m := fv.eval(rs.X, st)
+		ks, vs := fv.th.sortOf(mt.Key()), fv.th.sortOf(mt.Elem())
+		_ = vs
+		d, _, _ := fv.declMapHeaps(ks, vs)
+		k1 := fv.havocVal(st, "k1", mt.Key())
+		k2 := fv.havocVal(st, "k2", mt.Key())
+		dom := sx("select", fv.getHeap(st, d), m.T)
+		fv.addFact(st, mkAnd(mkNot(mkEq(m.T, "nil")), sx("select", dom, k1.T), sx("select", dom, k2.T), mkNot(fv.eqVals(k1, k2))))
+		x0 := st.vars[xobj]
+		et := elemType(x0.GoT)
+		esort := fv.th.sortOf(et)
+		hX := fv.declSliceHeap(esort)
+		type iter struct {
+			st       *State
+			appended string // condition: exactly one element appended
+			elem     string
+		}
+		nrun := 0
+		run := func(k string) (iter, string) {
+			nrun++
+			logStart := len(fv.storeLog)
+			s := fv.iterate(rs, m, mt, k, st.clone())
+			log := append([]storeRec(nil), fv.storeLog[logStart:]...)
+			// effects: only X changed among the outer variables; heap writes only at fresh objects
+			for o, v0 := range st.vars {
+				if o == xobj {
+					continue
+				}
+				if v1, ok := s.vars[o]; ok && v1.T != v0.T {
+					return iter{}, "the body assigns " + o.Name()
+				}
+			}
+			for _, r := range log {
+				if r.heap == "*" || r.ref == "*" {
+					return iter{}, "the body calls code that may change any heap"
+				}
+				if !fv.freshRefs[r.ref] {
+					return iter{}, "the body writes to " + r.heap + " (not only to the slice it builds)"
+				}
+			}
+			x1 := s.vars[xobj]
+			n0 := sx("sl_len", x0.T)
+			one := mkEq(sx("sl_len", x1.T), sx("+", n0, "1"))
+			same := mkEq(x1.T, x0.T)
+			// each iteration appends one element or nothing
+			if ob := fv.oblig(s, "ordind", strings.TrimPrefix(oname, src.Func+"#")+fmt.Sprintf(":sorted-after:append-only:%d", nrun), "each iteration appends at most one element to "+xid.Name+" and does nothing else", mkOr(one, same)); ob != nil {
+				result = append(result, ob)
+			}
+			el := sx("select", sx("select", fv.getHeap(s, hX), sx("sl_ref", x1.T)), n0)
+			return iter{s, mkAnd(s.guard, one), el}, ""
+		}
+		i1, why := run(k1.T)
+		if why != "" {
+			result = fail(why)
+			return
+		}
+		i2, why := run(k2.T)
+		if why != "" {
+			result = fail(why)
+			return
+		}
+		for k := range fv.unknownCalls {
+			result = fail("the body calls " + k)
+			return
+		}
+		if len(fv.unsupported) > 0 {
+			result = fail(strings.Join(fv.unsupported, "; "))
+			return
+		}
+		// drop the safety obligations of the body, keep ours
+		var mine []*Obligation
+		for _, o := range fv.obls {
+			if o.Kind == "ordind" {
+				mine = append(mine, o)
+			}
+		}
+		result = mine
+		fv.obls = mine
+		fv.curPos = call.Pos()
+		if full == "sort.Slice" || full == "sort.SliceStable" {
+			fl, ok := call.Args[1].(*ast.FuncLit)
+			if !ok {
+				result = fail("comparison is not a function literal")
+				return
+			}
+			// a two element slice [e1, e2]
+			s := st.clone()
+			r := fv.freshRef(s, "pair")
+			arb := fv.th.freshConst("pairarr", arraySort(SInt, esort))
+			fv.setHeapQuiet(s, hX, sx("store", fv.getHeap(s, hX), r, sx("store", sx("store", arb, "0", i1.elem), "1", i2.elem)))
+			s.vars[xobj] = Val{sx("mk_slice", r, "2"), SSlice, x0.GoT}
+			// the closure is evaluated in the state where both elements' heaps are visible: merge heaps of the two runs is
+			// not needed because iterations only write fresh objects
+			l01, ok1 := fv.closureLess(fl, s, "0", "1")
+			l10, ok2 := fv.closureLess(fl, s, "1", "0")
+			if !ok1 || !ok2 {
+				result = fail("comparison closure is not a single return expression")
+				return
+			}
+			fin := st.clone()
+			fin.guard = mkAnd(i1.appended, i2.appended)
+			if ob := fv.oblig(fin, "ordind", strings.TrimPrefix(oname, src.Func+"#")+":sorted-after:total", "the sort order is total on the appended elements (elements of two different keys are ordered, or identical)",
+				mkOr(l01, l10, mkEq(i1.elem, i2.elem))); ob != nil {
+				result = append(result, ob)
+			}
+		}
+		if len(result) == 0 {
+			result = append(result, fv.oblig(st, "ordind", strings.TrimPrefix(oname, src.Func+"#")+":sorted-after:shape", "append-only loop followed by "+full, "true"))
+		}
+		for _, ob := range result {
+			ob.facts = fv.facts[:ob.NFacts]
+		}
+	}()
+	return result
+}
+
+func safetySweep(cc *checkCtx, w *World) *extraResult { return nil }
